@@ -46,7 +46,7 @@ func c09() []*Ob {
 							return false
 						}
 						b, isB := ConstBool(st.Val)
-						return isB && b && ia.X.Type().String() == "[]bool"
+						return isB && b && TypeStr(ia.X.Type()) == "[]bool"
 					}) {
 						n++
 						st := in.(*ssa.Store)
@@ -350,7 +350,7 @@ func c09() []*Ob {
 				n := 0
 				for _, call := range CallsIn(fn, Callee("(*proxy/bulk.SeqDBClient).storeDocs")) {
 					for _, a := range call.Common().Args {
-						if !strings.HasSuffix(a.Type().String(), "bulkWriteStatus") {
+						if !strings.HasSuffix(TypeStr(a.Type()), "bulkWriteStatus") {
 							continue
 						}
 						n++
